@@ -25,6 +25,12 @@ impl Case {
     }
 }
 
+/// escapes the manual documents for replacement strings, as written and as they come out (named escapes are case- and
+/// space-insensitive; `\\u{..}` takes hex of either case; a backslash makes a reserved character literal)
+const ESCAPES: [(&str, &str); 16] = [("@{acute}", "\u{0301}"), ("@{Macron}", "\u{0304}"), ("@{under dot}", "\u{0323}"), ("@{CARON}", "\u{030C}"), ("@{Circumflex}", "\u{0302}"), ("@{ogonek}", "\u{0328}"),
+    ("\\u{00FE}", "þ"), ("\\u{fe}", "þ"), ("\\,", ","), ("\\-", "-"), ("\\+", "+"), ("\\*", "*"), ("\\>", ">"), ("\\=", "="), ("\\$", "$"), ("\\@", "@")];
+fn decode_escapes(t: &str) -> String { let mut o = t.to_string(); for (a, b) in ESCAPES { o = o.replace(a, b) } o }
+
 fn gen(r: &mut Rng) -> Case {
     let ns = r.range(1, 4);
     let pool: Vec<String> = (0..5).map(|_| rand_seg(r)).collect();
@@ -41,7 +47,9 @@ fn gen(r: &mut Rng) -> Case {
     let mut fresh: Vec<&str> = FRESH.to_vec(); r.shuffle(&mut fresh);
     if kind == "romaniser" {
         for k in 0..r.range(1, 5) {
-            let f = fresh[k];
+            // a third of the replacement strings end in an escape
+            let fx = if r.chance(1, 3) { format!("{}{}", fresh[k], r.pick(&ESCAPES).0) } else { fresh[k].to_string() };
+            let f = fx.as_str();
             aliases.push(match r.below(8) {
                 0 | 1 => format!("{} > {f}", r.pick(&pool)),
                 2 => format!("{}{} > {f}", r.pick(&pool), r.pick(&pool)),
@@ -93,7 +101,7 @@ fn parse_aliases(lines: &[String]) -> Option<(Vec<ALine>, Option<String>)> {
         for (k, i) in ins.iter().enumerate() {
             let o: &str = if outs.len() == 1 { outs[0] } else { outs.get(k)? };
             if *i == "$" { bound = Some(if o == "*" { String::new() } else { o.to_string() }); continue }
-            let (out, plus) = if o == "*" { (String::new(), false) } else if let Some(x) = o.strip_prefix('+') { (x.to_string(), true) } else { (o.to_string(), false) };
+            let (out, plus) = if o == "*" { (String::new(), false) } else if let Some(x) = o.strip_prefix('+') { (decode_escapes(x), true) } else { (decode_escapes(o), false) };
             let input = if let Some(b) = i.strip_prefix('[') { let b = b.strip_suffix(']')?; AIn::Feat(F.iter().position(|f| f.0 == &b[1..])?, b.starts_with('+')) }
                         else { let w = parse_word(i).ok()?; AIn::Segs(w.syllables.iter().flat_map(|s| s.segments.iter().cloned()).collect()) };
             v.push(ALine { input, out, plus });
@@ -139,7 +147,7 @@ pub fn judge(rep: &mut Report, c: &Case, bases: &std::collections::HashSet<crate
     if compile1(&c.rule).is_err() { rep.obs("rule_rejected", 1); return }
     let plain_run = match run_pub(&g, &[word.clone()], &[], &[]) { Ok(v) => v[0].clone(), Err(Applied::Abort(s)) => { rep.abort(s, || c.json()); return } Err(_) => { rep.obs("run_err", 1); return } };
     if c.kind == "romaniser" {
-        let with = match run_pub(&g, &[word.clone()], &[], &c.aliases) { Ok(v) => v[0].clone(), Err(Applied::Abort(s)) => { rep.abort(s, || c.json()); return } Err(e) => { let t = e.tag(); if t.contains("AliasSyn") || t.contains("AliasRun") { rep.obs("alias_rejected", 1); } else { rep.violation("run-fails-only-with-romanisers".into(), || json!({"case": c.json(), "observed": t})); } return } };
+        let with = match run_pub(&g, &[word.clone()], &[], &c.aliases) { Ok(v) => v[0].clone(), Err(Applied::Abort(s)) => { rep.abort(s, || c.json()); return } Err(e) => { let t = e.tag(); if t.contains("AliasSyn") || t.contains("AliasRun") { rep.obs("alias_rejected", 1); rep.obs(&format!("alias_rejected:{t}"), 1); if std::env::var("VERIF_DUMP").is_ok() { eprintln!("REJ {t} {:?}", c.aliases); } } else { rep.violation("run-fails-only-with-romanisers".into(), || json!({"case": c.json(), "observed": t})); } return } };
         let Some((lines, bound)) = parse_aliases(&c.aliases) else { rep.obs("alias_outside_reference", 1); return };
         // structural result WITHOUT aliases
         let Ok(w) = parse_word(&word) else { return };
